@@ -110,6 +110,7 @@ func verif_C19_limit() {
 	}
 	c := newConn(vc, s)
 	err := s.handleConn(c)
+	verifSettle()
 	reps, wf := verifParseReplies(vc.out)
 	verifAssert(wf && err == nil && lg.lines == 0, "C19.limit-clean")
 	if !wf {
